@@ -5,6 +5,9 @@ CONSTANTS
   InitLen = 2
   Fixed = TRUE
   Ids <- IdsAll
+  ServeFails = TRUE
+  DeferUnreport = TRUE
+  LockedAdd = TRUE
 INVARIANTS NoPanic OutcomeOK CountersNonNeg CountersBalanced LockNotLeaked NoWedge
 PROPERTIES EveryOpenEnds LaterStreamsServed
 CHECK_DEADLOCK FALSE
